@@ -86,7 +86,12 @@ func (c RawConfiguration) handleAsyncCall(ctx context.Context, fut *Async, state
 	for {
 		// check before waiting: there may be no node to wait for at all
 		if len(errs)+len(replies) == state.expectedReplies {
-			fut.reply, fut.err = resp, QuorumCallError{cause: Incomplete, errors: errs, replies: len(replies)}
+			cause := Incomplete
+			if ctx.Err() != nil {
+				// the context ended first; node errors caused by that are not answers
+				cause = ctx.Err()
+			}
+			fut.reply, fut.err = resp, QuorumCallError{cause: cause, errors: errs, replies: len(replies)}
 			return
 		}
 		select {
